@@ -298,6 +298,7 @@ func runC03(r *core.Run) (bool, string) {
 			if ex.BoundHit || incon {
 				res.Verdict = "held-on-explored-part (bound hit or unsupported construct)"
 				r.Inconclusive("exploration-incomplete")
+				r.Count("exploration_incomplete_template_"+info.Tmpl, 1)
 			} else {
 				res.Verdict = "held"
 			}
